@@ -3,12 +3,13 @@ From Coq Require Import ZArith List Lia.
 Require Import PyLib Checksum Rfc1071 C11P.
 Open Scope Z_scope.
 
-(* TCP: checksum field at offset 16 of the segment; UDP: at offset 6.  For every well-formed abstract packet, of any
+(* TCP: checksum field at offset 16 of the segment; UDP: at offset 6.  The IPv6 pseudo-header names the upper-layer protocol (6, 17:
+   RFC 8200 8.1) whatever extension headers the packet carries; the IPv4 one the header's protocol field.  For every well-formed abstract packet, of any
    length and with any bytes, the check answers exactly "the RFC 1071 sum including the checksum field is all ones". *)
-Theorem C11_tcp : forall p, wf_pkt 16 p -> calculate_checksum_tcp p = Ok (checksum_valid (spec_pseudo p) (seg p)).
-Proof. intros p W. apply check_is_rfc1071; [exact W|lia|reflexivity]. Qed.
+Theorem C11_tcp : forall p, wf_pkt 16 p -> calculate_checksum_tcp p = Ok (checksum_valid (spec_pseudo 6 p) (seg p)).
+Proof. intros p W. apply check_is_rfc1071; [exact W|lia|reflexivity|lia]. Qed.
 Print Assumptions C11_tcp.
 
-Theorem C11_udp : forall p, wf_pkt 6 p -> calculate_checksum_udp p = Ok (checksum_valid (spec_pseudo p) (seg p)).
-Proof. intros p W. apply check_is_rfc1071; [exact W|lia|reflexivity]. Qed.
+Theorem C11_udp : forall p, wf_pkt 6 p -> calculate_checksum_udp p = Ok (checksum_valid (spec_pseudo 17 p) (seg p)).
+Proof. intros p W. apply check_is_rfc1071; [exact W|lia|reflexivity|lia]. Qed.
 Print Assumptions C11_udp.
